@@ -427,7 +427,8 @@ std::string build_case(const std::string &kind_in) {
   std::string kind = kind_in;
   size_t dash = kind.find('-');
   if (dash != std::string::npos) {
-    if (kind.substr(dash + 1) == "thorough") p.thorough = true;
+    // the thorough tier mixes many quick-profile cases with a share of long histories carrying values up to 1.2 MiB
+    if (kind.substr(dash + 1) == "thorough") p.thorough = chance(30);
     kind = kind.substr(0, dash);
   }
   p.kind = kind;
